@@ -131,8 +131,11 @@ func (g *gen) genPkg(pkg *Pkg, earlier []*Pkg) {
 	for i := 0; i < nTypes; i++ {
 		td := &TypeDecl{ID: g.p.NewID(), Pkg: pkg}
 		td.Name = namePool[g.pick("tname", len(namePool))]
+		if g.chance("unexportedType", 12) {
+			td.Name = strings.ToLower(td.Name[:1]) + td.Name[1:] + "u"
+		}
 		for _, o := range types {
-			if o.Name == td.Name {
+			if strings.EqualFold(o.Name, td.Name) {
 				td.Name = fmt.Sprintf("%s%d", td.Name, i)
 			}
 		}
@@ -170,6 +173,17 @@ func (g *gen) genPkg(pkg *Pkg, earlier []*Pkg) {
 			}
 			decls = g.add(decls, g.genCtor(pkg, td, cn))
 		}
+	}
+	// ---- exported getters: the only way importers reach an unexported type
+	for _, td := range types {
+		if td.Exported() {
+			continue
+		}
+		gt := &FuncDecl{ID: g.p.NewID(), Name: "Get" + strings.ToUpper(td.Name[:1]) + td.Name[1:], Pkg: pkg, done: true, called: true}
+		gt.Results = []*TypeRef{{Type: td, Ptr: true}}
+		gt.ResultIDs = []int{g.p.NewID()}
+		gt.RetExpr = "nil"
+		decls = g.add(decls, gt)
 	}
 	// ---- methods with annotations (testonly/packageonly) and plain ones
 	var funcs []*FuncDecl
@@ -340,7 +354,7 @@ func (g *gen) genFields(td *TypeDecl, own []*TypeDecl, earlier []*Pkg) {
 	}
 	for _, ep := range earlier {
 		for _, o := range typesOf(ep) {
-			if o.Kind == KStruct {
+			if o.Kind == KStruct && o.Exported() {
 				cands = append(cands, o)
 			}
 		}
@@ -522,7 +536,11 @@ func (g *gen) immSite(sc *scope, td *TypeDecl, o *Var) *Site {
 func visibleTypes(own []*TypeDecl, earlier []*Pkg) []*TypeDecl {
 	out := append([]*TypeDecl{}, own...)
 	for _, ep := range earlier {
-		out = append(out, typesOf(ep)...)
+		for _, t := range typesOf(ep) {
+			if t.Exported() {
+				out = append(out, t)
+			}
+		}
 	}
 	return out
 }
@@ -791,7 +809,7 @@ func (g *gen) callFamily(sc *scope, pkg *Pkg, td *TypeDecl, own []*TypeDecl, ear
 		}
 		if fd.Recv == nil {
 			fns = append(fns, fd)
-		} else {
+		} else if fd.Recv.Ref.Type.Exported() || fd.Pkg == pkg {
 			ms = append(ms, fd)
 		}
 	}
@@ -895,6 +913,24 @@ func (g *gen) genIndirect(pkg *Pkg, earlier []*Pkg, n int) []Decl {
 	}
 	t := cands[g.pick("indType", len(cands))]
 	var out []Decl
+	if !t.Exported() {
+		// reachable only through the declaring package's exported getter
+		getter := g.findFunc(t.Pkg, "Get"+strings.ToUpper(t.Name[:1])+t.Name[1:])
+		if getter == nil {
+			return nil
+		}
+		u := &FuncDecl{ID: g.p.NewID(), Name: fmt.Sprintf("Fu%d", n), Pkg: pkg, done: true}
+		sc := &scope{g: g}
+		sc.addPar = func(v *Var) { u.Params = append(u.Params, v) }
+		o := &Var{Name: "_", Ref: &TypeRef{Type: t, Ptr: true}, CallOf: getter}
+		k := rapid.IntRange(1, 3).Draw(g.t, "unexpSites")
+		for i := 0; i < k; i++ {
+			if s := g.immSite(sc, t, o); s != nil {
+				u.Body = append(u.Body, g.maybeWrap(sc, s, 1))
+			}
+		}
+		return []Decl{u}
+	}
 	sitesOn := func(o *Var, sc *scope) []Stmt {
 		var body []Stmt
 		k := rapid.IntRange(1, 3).Draw(g.t, "indSites")
